@@ -489,6 +489,22 @@ def rule_r12_callsites(ctx, prog, rule="R12"):
                         if ob is root_b and peel_coercions(oe) == peel_coercions(v):
                             muts.append((gb, cbb, callee_name(t)))
         names = [m[2] for m in muts]
+        # a vector collected from the iteration of a BTreeSet is ascending and distinct by the container's contract
+        vv = strip(v)
+        from_set = False
+        if isinstance(vv, tuple) and vv[0] == "call" and vv[1] in ("collect", "from_iter") and len(vv) > 4 and not muts:
+            st_ = root_b.site_term(vv[4])
+            aty = (st_ or {}).get("arg_tys") or [""]
+            it_ = strip(vv[3][0])
+            for _ in range(3):
+                if isinstance(it_, tuple) and it_[0] == "call" and it_[1] in ("copied", "cloned") and it_[3]:
+                    it_ = strip(it_[3][0])
+            ity = aty[0]
+            from_set = "std::collections::btree_set::" in ity and "Vec<" in ((st_ or {}).get("callee", {}).get("path_args") or "")
+        if from_set:
+            ctx.ob(rule, "%s/get_many_from_sorted_mut_unchecked/indexes" % short(root_b.key), True, b.where(bb, "term"),
+                   "index vector is collected from a BTreeSet iteration (ascending and distinct by the container's contract) and never mutated")
+            continue
         sort_i = [i for i, nme in enumerate(names) if nme.startswith("sort")]
         dedup_i = [i for i, nme in enumerate(names) if nme.startswith("dedup")]
         # construction-phase mutations (push/extend/with_capacity) must all dominate the sort
